@@ -1,10 +1,11 @@
 (** Dispatch table used by the extracted runner: property number -> model runner / monitor. *)
 From RRE Require Import Base.Sx.
-From RRE Require Model.Watermark Model.Tms Model.ProofGraph Model.Undo Model.Module Model.Window Model.Join Model.KB Model.Index Model.State Model.ReteAgenda Model.EngineConc Model.Parallel Model.Incremental Model.ExprShape.
+From RRE Require Model.Watermark Model.Tms Model.ProofGraph Model.Undo Model.Module Model.Window Model.Join Model.KB Model.Index Model.State Model.ReteAgenda Model.EngineConc Model.Parallel Model.Incremental Model.ExprShape Model.ForwardSpec.
 Open Scope Z_scope.
 
 Definition run_by_id (id : Z) (c : sx) : sx :=
   match id with
+  | 1 => ForwardSpec.run_sx c
   | 2 => EngineConc.run_sx c
   | 3 => EngineConc.run_sx c
   | 5 => ExprShape.run_sx c
@@ -30,6 +31,7 @@ Definition b2z (b : bool) : Z := if b then 1 else 0.
 
 Definition ok_by_id (id : Z) (c o : sx) : Z :=
   match id with
+  | 1 => ForwardSpec.ok_sx c o
   | 2 => b2z (EngineConc.ok_sx c o)
   | 3 => b2z (EngineConc.ok_sx c o)
   | 5 => ExprShape.ok_sx c o
